@@ -2,12 +2,14 @@ import StirVerif.C07.Model
 /-! Line-protocol driver for C07 (implementation side: harness/c07_osmaposl.cxx).
 
     cfg <stream> <nvox> <numSubsets> <startSubset> <map 0|1|2> <minRel> <maxRel> <iuf> <iif> <enforce>   -> ok
+    chk <numSubsets> <startSubset> <numSubiterations> <startSubiteration> <saveInterval> <iif> <iuf>   -> ok | err
     setup V <image…>                                                  -> image after `set_up`
     upd <k> <subset> <1 if an inter-iteration filter call followed else 0> L <image…> G <gps…> S <sens…> [P <priorgrad…>] [F <inter-update filter output…>]
                                                                       -> image after `update_estimate`
     eoi <k> L <image…> F <inter-iteration filter output…>             -> image after `end_of_iteration_processing`
     Floats are C99 hex floats, parsed exactly; answers are exact rationals `p/q` (or inf, -inf, nan); a voxel whose
-    division is within 2^-20 (relative) of the threshold of `stir::divide` is answered as `a|b` (both branches). -/
+    division is within 2^-20 (relative) of the threshold of `stir::divide` is answered as `a|b` (both branches), a voxel
+    whose quotient is non-zero / 0 as `*` (anything goes: outside the property, and -ffast-math territory). -/
 namespace Driver.C07
 open StirVerif.C07
 
@@ -112,7 +114,14 @@ def answerUpd (c : Cfg) (k : Nat) (img g s pg : Img) : String :=
         let other := if k != 1 then thresholdUpperLower c.minRel c.maxRel other else other
         some (mulExt lam other)
       else none) img1 g s pg
-  let parts := (res.zip alt).map fun (r, a) =>
+  -- a voxel whose quotient is not finite (non-zero / 0: inconsistent data, outside the property) is answered `*`:
+  -- the library is compiled with -ffast-math, what it does with inf / nan is not specified
+  let wild := zip4With (fun _ gj sj pj =>
+      match divide1 small gj (denom c.map c.numSubsets pj sj) with
+      | .fin _ => false
+      | _ => true) img1 g s pg
+  let parts := ((res.zip alt).zip wild).map fun ((r, a), w) =>
+    if w then "*" else
     match a with
     | some o => fmtExt r ++ "|" ++ fmtExt o
     | none => fmtExt r
@@ -129,6 +138,9 @@ def stepLine (st : St) (line : String) : St × String :=
          map := if m == "1" then .additive else if m == "2" then .multiplicative else .none,
          minRel := mn', maxRel := mx', iuf := N iu, iif := N ii, enforce := en == "1" }, "ok")
     | _, _ => (st, "bad-cfg")
+  | ["chk", ns, ss, n, start, save, ii, iu] =>
+    let I (s : String) : Int := s.toInt?.getD 0
+    (st, if setUpRangesOk (I ns) (I ss) (I n) (I start) (I save) (I ii) (I iu) then "ok" else "err")
   | "setup" :: rest =>
     match getVec (sections rest) "V" with
     | some v =>
